@@ -52,6 +52,30 @@ def _has(node, types):
     return any(isinstance(n, types) for n in ast.walk(node))
 
 
+def _closed_lambdas(fn):
+    """Every lambda in fn uses only its own parameters and module-level
+    names - none of fn's parameters or locals (which inlining renames) -
+    and its parameters are no locals of fn either."""
+    own = {a.arg for a in fn.args.args}
+    for n in ast.walk(fn):
+        if isinstance(n, ast.Name) and isinstance(n.ctx, ast.Store):
+            own.add(n.id)
+    for lam in [n for n in ast.walk(fn) if isinstance(n, ast.Lambda)]:
+        a = lam.args
+        if a.vararg or a.kwarg or a.kwonlyargs or a.defaults:
+            return False
+        params = {x.arg for x in a.args}
+        if params & own:
+            return False
+        for n in ast.walk(lam.body):
+            if isinstance(n, ast.Name) and n.id not in params and \
+                    n.id in own:
+                return False
+            if isinstance(n, (ast.Lambda, ast.NamedExpr)):
+                return False
+    return True
+
+
 class Helper:
     def __init__(self, fn, cls, kind):
         self.fn = fn
@@ -75,8 +99,10 @@ def find_helpers(trees):
             a = fn.args
             if a.vararg or a.kwarg or a.kwonlyargs or a.posonlyargs:
                 return
-            if _has(fn, (ast.Yield, ast.YieldFrom, ast.Lambda, ast.Global,
+            if _has(fn, (ast.Yield, ast.YieldFrom, ast.Global,
                          ast.Nonlocal, ast.Await)):
+                return
+            if _has(fn, ast.Lambda) and not _closed_lambdas(fn):
                 return
             if any(isinstance(n, (ast.FunctionDef, ast.ClassDef))
                    for n in ast.walk(fn) if n is not fn):
